@@ -45,6 +45,83 @@ def generate(o):
     def width_test():
         return to_lean(if_expr(func_body("calculate_data_width"), ["width", "max_width"]), {"width": "w", "max_width": "acc"})
 
+    def fast_paths():
+        """[(num_cols, {result row: position in `columns`})] for the specialised branches, plus a check of the general one."""
+        body = func_body("collect_cython")
+        lines = body.split("\n")
+        heads = [(i, re.match(r"^(\s*)(if|elif)\s+num_cols\s*==\s*(\d+)\s*:\s*(?:#.*)?$", l)) for i, l in enumerate(lines)]
+        heads = [(i, m) for i, m in heads if m]
+        if len(heads) != 2 or heads[0][1].group(2) != "if" or heads[1][1].group(2) != "elif":
+            raise KeyError("if num_cols == a / elif num_cols == b")
+        indent = heads[0][1].group(1)
+        els = [i for i, l in enumerate(lines) if re.match(r"^%selse\s*:\s*(?:#.*)?$" % re.escape(indent), l) and i > heads[1][0]]
+        if len(els) != 1:
+            raise KeyError("else branch of the num_cols dispatch")
+        end = next((i for i in range(els[0] + 1, len(lines)) if lines[i].strip() and not lines[i].startswith(indent + " ")), len(lines))
+        blocks = [(int(heads[0][1].group(3)), lines[heads[0][0] + 1 : heads[1][0]]), (int(heads[1][1].group(3)), lines[heads[1][0] + 1 : els[0]])]
+        out = []
+        for width, blk in blocks:
+            code = [l.split("#")[0].strip() for l in blk]
+            code = [l for l in code if l]
+            src, loopvar, table = {}, None, {}
+            for l in code:
+                m = re.match(r"^(\w+)\s*=\s*columns\[(\d+)\]$", l)
+                if m:
+                    src[m.group(1)] = int(m.group(2))
+                    continue
+                m = re.match(r"^for\s+(\w+)\s+in\s+range\(num_rows\)\s*:$", l)
+                if m and loopvar is None:
+                    loopvar = m.group(1)
+                    continue
+                m = re.match(r"^tuple_row\s*=\s*<tuple>\s*rows\[(\w+)\]$", l)
+                if m and m.group(1) == loopvar:
+                    continue
+                m = re.match(r"^result\[(\d+),\s*(\w+)\]\s*=\s*tuple_row\[(\w+)\]$", l)
+                if m and m.group(2) == loopvar and m.group(3) in src and int(m.group(1)) not in table:
+                    table[int(m.group(1))] = src[m.group(3)]
+                    continue
+                raise KeyError("unrecognised statement in the %d-column path: %s" % (width, l))
+            if sorted(table) != list(range(len(out) + 1)):
+                raise KeyError("the %d-column path does not fill result rows 0..%d" % (width, len(out)))
+            out.append([width, [table[r] for r in range(len(out) + 1)]])
+        gen = [l.split("#")[0].strip() for l in lines[els[0] + 1 : end]]
+        gen = [l for l in gen if l]
+        want = ["for i in range(num_rows):", "tuple_row = <tuple>rows[i]", "for j in range(num_cols):", "result[j, i] = tuple_row[columns[j]]"]
+        if gen != want:
+            raise KeyError("general path is not the plain double loop")
+        return out
+
+    def int_expr(text, env):
+        node = ast.parse(text.strip(), mode="eval").body
+
+        def ok(n):
+            if ast.unparse(n) in env:
+                return True
+            if isinstance(n, ast.Constant):
+                return isinstance(n.value, int) and not isinstance(n.value, bool)
+            if isinstance(n, ast.BinOp):
+                return type(n.op) in (ast.Add, ast.Sub, ast.Mult) and ok(n.left) and ok(n.right)
+            return False
+
+        if not ok(node):
+            raise KeyError("not an integer expression: " + text.strip())
+        return to_lean(node, env)
+
+    def extract_exprs():
+        body = func_body("extract_dict_columns")
+        m1 = re.search(r"\bnum_fields\s*=\s*([^\n,#]+)", body)
+        m2 = re.search(r"^\s*(?:cdef\s+list\s+)?field_data\s*=\s*\[None\]\s*\*\s*([^\n#]+)$", body, re.M)
+        m3 = re.search(r"^\s*for\s+i\s+in\s+range\(([^\n#]+)\)\s*:", body, re.M)
+        if not (m1 and m2 and m3):
+            raise KeyError("num_fields = …, field_data = [None] * …, for i in range(…)")
+        if not (re.search(r"PyDict_GetItem\(data,\s*fields\[i\]\)", body) and len(re.findall(r"field_data\[i\]\s*=", body)) == 2
+                and re.search(r"return\s+tuple\(field_data\)", body)):
+            raise KeyError("loop body of extract_dict_columns")
+        return [int_expr(m1.group(1), {"len(fields)": "len"}), int_expr(m2.group(1), {"num_fields": "num_fields"}),
+                int_expr(m3.group(1), {"num_fields": "num_fields"})]
+
+    xe = o.item("pyx.extract.sizes", extract_exprs, ["len", "num_fields", "num_fields"])
+    fp = o.item("pyx.collect.fast_paths", fast_paths, [[1, [0]], [2, [0, 1]]])
     bi = o.item("pyx.collect.bad_index", bad_index, "((c < 0) ∨ (c ≥ width))")
     la = o.item("pyx.collect.limit_applies", limit_applies, "((limit ≥ 0) ∧ (limit < n))")
     ee = o.item("pyx.collect.early_exit", early_exit, "((nrows = 0) ∨ (ncols = 0))")
@@ -64,5 +141,15 @@ def generate(o):
     t += "def widthFloor : Nat := %d\n" % wf
     t += "def widthUpdates (w acc : Int) : Prop := %s\n" % wt
     t += "instance (w acc : Int) : Decidable (widthUpdates w acc) := by unfold widthUpdates; infer_instance\n"
+    t += "/-- collect_cython: the specialised branches `num_cols == 1` / `num_cols == 2`: which position of `columns` feeds each result row -/\n"
+    t += "def fastWidth1 : Nat := %d\n" % fp[0][0]
+    t += "def path1Src : Nat := %d\n" % fp[0][1][0]
+    t += "def fastWidth2 : Nat := %d\n" % fp[1][0]
+    t += "def path2Src0 : Nat := %d\n" % fp[1][1][0]
+    t += "def path2Src1 : Nat := %d\n" % fp[1][1][1]
+    t += "/-- extract_dict_columns: the field count, the size of the allocated list and the loop bound -/\n"
+    t += "def extractCount (len : Int) : Int := %s\n" % xe[0]
+    t += "def extractAlloc (num_fields : Int) : Int := %s\n" % xe[1]
+    t += "def extractBound (num_fields : Int) : Int := %s\n" % xe[2]
     t += "end Gen.Kernels\n"
     o.files["KernelsExpr.lean"] = t
